@@ -9,5 +9,6 @@ sh coq/gen_project.sh
 ( cd coq && timeout 7200 make -j16 ) > /dev/null
 sh mrun/build.sh
 [ -f harness/Cargo.lock ] || cp /repo/Cargo.lock harness/Cargo.lock
+sed "s#@REPO@#${VERIF_REPO:-/repo}#" harness/Cargo.toml.in > harness/Cargo.toml
 ( cd harness && cargo build --release --offline 2>&1 | tail -3 )
 echo setup done
